@@ -11,6 +11,7 @@ package operations
 //@   property C12
 //@   at call append#2 assert [children-from-subtree-query] subtreeQueries == old(subtreeQueries) + 1
 //@   at call SignHeader#1 assert [delete-record-names] hdr.Name == dbhdr.Name && hdr.PAXRecords["STFS.Action"] == "DELETE" && hdr.Size == 0
+//@   at call SignHeader#1 assert [entries-are-addressed-by-their-own-name] dbhdr.Linkname == ""
 //@   property C17
 //@   at call SignHeader#1 assert [pax-format] arg_hdr.Format == 4
 //@   property C02 also C12
@@ -43,6 +44,7 @@ package operations
 //@   at call Join#1 assert [newname-formula] arg_elem[0] == to && arg_elem[1] == trimPrefix(trimPrefix(dbhdr.Name, "/"), trimPrefix(from, "/"))
 //@   at call append#2 assert [children-from-subtree-query] subtreeQueries == old(subtreeQueries) + 1
 //@   at call SignHeader#1 assert [move-record-names] hdr.PAXRecords["STFS.ReplacesName"] == dbhdr.Name && hdr.PAXRecords["STFS.Action"] == "UPDATE" && hdr.Size == 0
+//@   at call SignHeader#1 assert [entries-are-addressed-by-their-own-name] dbhdr.Linkname == ""
 //@   property C17
 //@   at call SignHeader#1 assert [pax-format] arg_hdr.Format == 4
 //@   property C02
